@@ -5,7 +5,8 @@ MANIFEST = {
     "text": ("Theorems over ALL finite operation histories (induction over fold_left step, any N >= 1, any mix of managed / explicit sends, "
              "final / non-final / unknown-id deliveries, events, consumer reads, clock ticks, Close) of an executable Gallina model that mirrors "
              "client/inflight.go statement by statement: accepted managed ids lie in [1,N]; an accepted id is carried by no unanswered request; a "
-             "request stays registered until its final frame or Close; with N unanswered every send is refused and nothing is lost; explicit reuse "
+             "request stays registered until its final frame or Close, and over every history in between (timeouts, overflow included) an explicit "
+             "send with its id is refused; with N unanswered every send is refused and nothing is lost; explicit reuse "
              "is refused; pool + managed-in-flight is a permutation of 1..N in every open reachable state (mixed histories included); after all "
              "answers N managed sends succeed with ids covering 1..N. Schedules: a small-step semantics of the code's atomic actions (any number "
              "of senders with managed and explicit ids mixed, the receive loop, closers) with an inductive invariant for EVERY interleaving: no two "
@@ -31,6 +32,11 @@ def check(run):
         "N<=3; seeded random histories of 40..8000 operations for N up to 1024 (32767 in both tiers: a full fill on the implementation and a "
         "partial fill through the model); each is run on the real handler through client/verif_hooks.go and through model/Inflight.v under "
         "vm_compute and the per-step outcome + final state (FIFO pool, key set, every request) compared. "
+        "reuse-overflow / reuse-timeout / exh-reuse-* / rand-reuse-*: a request with a caller-chosen (or managed) id fails without its final "
+        "frame (maxPending+1 unread pages, or - in real time - the read timeout), then the same id is sent again explicitly (must be refused), "
+        "then the late frames for that id arrive: directed, every continuation to depth 3 after the failure, and random histories biased "
+        "towards explicit ids inside [1,N]. Every call into the library runs under a watchdog (a call that never returns is reported as "
+        "send-blocked / receiver-blocked / close-hangs with the history and the step). "
         "non-trivial = a history in which at least one request was accepted and at least one other kind of outcome occurred; distinct = distinct "
         "(N, maxPending, mode, operation list)")
     il.verdict(run, "C09", broken, findings)
